@@ -30,7 +30,7 @@ LIFE_WRITES = ["ok", "missing", "extra", "wrong", "xv", "nonjson", "tb"]
 # quick: the write kind "wrong" stands for any deviation reported as ValidationError; its witnesses are drawn from the
 # wrong-typed / missing / extra / validator-rejected writes (job flag "mix_ve"); thorough enumerates the kinds separately
 LIFE_CFGS = {"quick": [("MC_Validate_Life.cfg", {"MaxSteps": 5, "LifeWrites": ["ok", "wrong", "nonjson", "tb"]}, 2)],
-             "thorough": [("MC_Validate_LifeAll.cfg", {"MaxSteps": 5, "LifeWrites": LIFE_WRITES}, 3),
+             "thorough": [("MC_Validate_LifeAll.cfg", {"MaxSteps": 5, "LifeWrites": LIFE_WRITES}, 2),
                           ("MC_Validate_Life6.cfg", {"MaxSteps": 6, "LifeWrites": ["ok", "wrong", "nonjson", "tb"]}, 2)]}
 
 
